@@ -10,6 +10,11 @@ HEADER = ("From MP Require Import Common.Base Common.Tree Model.Heap Model.Names
           "Model.HeapEdits Model.Copy Model.HeapRun.\n")
 
 
+def fresh(x):
+    """a NEW str object with the same value (lesson d: never pass shared literals to the implementation)"""
+    return "".join(list(x)) if isinstance(x, str) else x
+
+
 class World:
     def __init__(self):
         from metapype.model.node import Node
@@ -41,6 +46,7 @@ class World:
     def apply(self, c):
         """Returns None, or the class name of the exception the implementation raised."""
         N, o = self.Node, self.objs
+        c = tuple(fresh(x) for x in c)
         try:
             k = c[0]
             if k == "create":
@@ -75,6 +81,16 @@ class World:
                 N.delete_node_instance(self.idof(c[1]), children=c[2])
             elif k == "setinst":
                 N.set_node_instance(o[c[1]])
+            elif k == "rawattr":
+                o[c[1]].attributes[c[2]] = c[3]
+            elif k == "rawextras":
+                o[c[1]].extras[c[2]] = c[3]
+            elif k == "rawns":
+                o[c[1]].nsmap[c[2]] = c[3]
+            elif k == "rawchild":
+                o[c[1]].children.append(o[c[2]])
+            elif k == "rmchildren":
+                o[c[1]].remove_children()
             else:
                 raise AssertionError(c)
         except (KeyError, ValueError, AttributeError, IndexError, TypeError) as e:
